@@ -565,15 +565,15 @@ theorem loop_step {s : Store} {root : Ino} {v : View} {mode : SlMode} {parent : 
             rw [searchLoop]
             simp [hnext, hpart, hgp, hden, hch, hg, hl]
         | symlink m link =>
-          by_cases hcount : slCount + 1 > slCountMax
-          · refine .done ⟨parent, some c, saved.getD it1, .loop⟩ ?_
-              (post_other _ _ _ hdir (by simp) (by simp)) (by simp)
+          by_cases hx : (it1.isLast && mode == .lstat) = true
+          · refine .done ⟨parent, some c, saved.getD it1, .exists⟩ ?_ (post_exists hwf hdir hS hpo1 hch)
+              (by simp)
             intro fuel
             rw [searchLoop]
-            simp [hnext, hpart, hgp, hden, hch, hg, hcount]
-          · by_cases hx : (it1.isLast && mode == .lstat) = true
-            · refine .done ⟨parent, some c, saved.getD it1, .exists⟩ ?_ (post_exists hwf hdir hS hpo1 hch)
-                (by simp)
+            simp [hnext, hpart, hgp, hden, hch, hg, hx]
+          · by_cases hcount : slCount + 1 > slCountMax
+            · refine .done ⟨parent, some c, saved.getD it1, .loop⟩ ?_
+                (post_other _ _ _ hdir (by simp) (by simp)) (by simp)
               intro fuel
               rw [searchLoop]
               simp [hnext, hpart, hgp, hden, hch, hg, hcount, hx]
